@@ -535,6 +535,83 @@ func c17CheckHeaderBits(c c17HdrCase) engine.Result {
 	return res
 }
 
+// c17Sizes: a unit made of packets whose payload sizes run through ALL triples (a, b, c) in 1..184, and
+// selected longer size sequences: whatever buffer policy an implementation has (initial capacity, growth
+// steps), the accumulated bytes are the concatenation.
+type c17SizeCase struct {
+	A    int `json:"first_payload_bytes"`
+	More int `json:"further_packets"` // 0: all triples with this first size; n>0: A, then n sizes from a stride pattern
+}
+
+func c17PacketOfSize(n int, pusi bool, fill byte) (packet.Packet, []byte) {
+	var p packet.Packet
+	p[0], p[1], p[2] = 0x47, 0x01, 0x23
+	if pusi {
+		p[1] |= 0x40
+	}
+	start := 188 - n
+	if n == 184 {
+		p[3] = 0x10
+	} else {
+		p[3] = 0x30
+		p[4] = byte(183 - n)
+		if n < 183 {
+			p[5] = 0x00
+			for i := 6; i < start; i++ {
+				p[i] = 0xFF
+			}
+		}
+	}
+	for i := start; i < 188; i++ {
+		p[i] = fill + byte(i)
+	}
+	return p, p[start:]
+}
+
+func c17CheckSizes(c c17SizeCase) engine.Result {
+	var res engine.Result
+	run := func(sizes []int) {
+		acc := packet.NewAccumulator(func([]byte) (bool, error) { return false, nil })
+		var want []byte
+		for i, n := range sizes {
+			p, pay := c17PacketOfSize(n, i == 0, byte(0x21*i+n))
+			want = append(want, pay...)
+			if _, err := acc.WritePacket(&p); err != nil {
+				res.Failf("payload-sizes|WritePacket|error", "sizes %v: packet %d: %v", sizes, i, err)
+				return
+			}
+		}
+		res.Evals++
+		if got := acc.Bytes(); !bytes.Equal(got, want) {
+			res.Failf("payload-sizes|Bytes", "payload sizes %v: Bytes() has %d bytes, want %d (first difference at %d)", sizes, len(got), len(want), firstDiff(got, want))
+		}
+		if len(acc.Packets()) != len(sizes) {
+			res.Failf("payload-sizes|Packets-count", "payload sizes %v: %d packets", sizes, len(acc.Packets()))
+		}
+	}
+	engine.Guard(&res, "accumulator", func() {
+		if c.More == 0 {
+			for b := 1; b <= 184 && len(res.Fail) == 0; b++ {
+				for cc := 1; cc <= 184; cc++ {
+					run([]int{c.A, b, cc})
+				}
+			}
+			return
+		}
+		// longer units: sizes walk through 1..184 with a stride that depends on the first size
+		for stride := 1; stride <= 61 && len(res.Fail) == 0; stride += 4 {
+			sizes := []int{c.A}
+			for i := 1; i <= c.More; i++ {
+				sizes = append(sizes, 1+(c.A+i*stride)%184)
+			}
+			run(sizes)
+		}
+	})
+	res.Nontrivial = res.Evals
+	res.Outcome(c.More)
+	return res
+}
+
 func init() {
 	engine.Register(&engine.Property{
 		ID: "C17", Title: "Payload accumulator returns exactly the payloads since the last unit start", Level: "model_checking",
@@ -598,6 +675,19 @@ func init() {
 					}
 				},
 				Check: c17CheckLong, Batch: 8,
+			},
+			&engine.Enum[c17SizeCase]{
+				Name: "payload-sizes",
+				Rule: "a new accumulator per unit: unit start with a payload of a bytes, continuations of b and c bytes for ALL triples (a, b, c) in 1..184 (sizes made by adaptation-field stuffing), and for every a units of 5, 9 and 30 packets whose sizes walk through 1..184 with 16 strides: Bytes() is the concatenation and the packet count is right (every total between 3 and 552 bytes is reached in every way three packets can make it: buffer growth steps of any policy)",
+				Gen: func(r *engine.Run, emit func(c17SizeCase)) {
+					for a := 1; a <= 184; a++ {
+						emit(c17SizeCase{a, 0})
+						for _, m := range []int{4, 8, 29} {
+							emit(c17SizeCase{a, m})
+						}
+					}
+				},
+				Check: c17CheckSizes, Batch: 2,
 			},
 			&engine.Enum[c17HdrCase]{
 				Name: "header-bits",
